@@ -869,6 +869,27 @@ def size_return_family(rng):
     return dict(time_units="generations", demes=demes)
 
 
+def merge_family(rng):
+    """a deme with three to six ancestors (proportions that sum to exactly or nearly one, listed in any order relative
+    to the ancestors' definition order), the ancestors ending at or after the merger; optionally a pulse at the same time"""
+    k = rng.randint(3, 6)
+    props = rng.choice({3: [[0.5, 0.25, 0.25], [0.2, 0.3, 0.5], [1 / 3, 1 / 3, 1 / 3]],
+                        4: [[0.25] * 4, [0.5, 0.25, 0.125, 0.125], [0.1, 0.2, 0.3, 0.4], [0.7, 0.1, 0.1, 0.1]],
+                        5: [[0.2] * 5, [0.5, 0.125, 0.125, 0.125, 0.125], [0.05, 0.15, 0.2, 0.25, 0.35]],
+                        6: [[0.5, 0.1, 0.1, 0.1, 0.1, 0.1], [0.25, 0.25, 0.125, 0.125, 0.125, 0.125]]}[k])
+    t = rng.choice([100, 50.5, 1000])
+    names = ["a%d" % i for i in range(k)]
+    demes = [dict(name=nm, epochs=[dict(start_size=100 * (i + 1), end_time=(t if rng.random() < 0.6 else 0))]) for i, nm in enumerate(names)]
+    order = names[:]
+    rng.shuffle(order)
+    demes.append(dict(name="m", ancestors=order, proportions=props, start_time=t, epochs=[dict(start_size=500, end_time=0)]))
+    doc = dict(time_units="generations", demes=demes)
+    alive = [d["name"] for d in demes[:-1] if d["epochs"][0]["end_time"] == 0]
+    if alive and rng.random() < 0.4:
+        doc["pulses"] = [dict(sources=[alive[0]], dest="m", time=t / 2, proportions=[0.1])]
+    return doc
+
+
 def sawtooth_family(rng):
     """consecutive exponential epochs with equal growth rate and a size jump between
     them (zigzag / sawtooth histories), optionally with a second deme"""
